@@ -535,7 +535,9 @@ class Plane:
                 phasor = Field(data=amp*np.exp(2*np.pi*1j*opd/wavefront.wavelength),
                                pixelscale=self.pixelscale,
                                offset=lentil.helper.slice_offset(s, self.shape),
-                               tilt=self.tilt[n::self.size])
+                               # (copies: the wavefront keeps the tilt the plane
+                               # has NOW, see TiltInterface.multiply)
+                               tilt=[copy.copy(t) for t in self.tilt[n::self.size]])
 
                 res = field * phasor
                 if res.size > 0:
